@@ -111,15 +111,17 @@ def rebuildLeaves (F : Flags) (H : HashFn) (k index : Nat) : List Bytes → Nat 
         | .ok none => .ok none
         | .ok (some hs) => .ok (some (hashLeaf H ns sh :: hs))
 
+/-- `leopard_codec::reconstruct(&mut rebuilt_shares, ods_width)`: `none` = `Err(_)`, else the shards afterwards -/
+def reconstructStep (C : Codec) (k : Nat) (rebuilt : List Bytes) : Option (List Bytes) :=
+  match leopardReconstructPre rebuilt k with
+  | .err => none
+  | .allPresent => some rebuilt
+  | .run => some (C.recon rebuilt)
+
 /-- `validate` from the reconstruction on; `rebuilt` = the axis with `[]` for the missing shares -/
 def checkEncoding (F : Flags) (H : HashFn) (C : Codec) (dah : Dah) (axis : Axis) (index k : Nat) (rebuilt : List Bytes) :
     Except BErr Unit :=
-  let recd? : Option (List Bytes) :=
-    match leopardReconstructPre rebuilt k with
-    | .err => none
-    | .allPresent => some rebuilt
-    | .run => some (C.recon rebuilt)
-  match recd? with
+  match reconstructStep C k rebuilt with
   | none => .ok ()                                          -- "befp is legit"
   | some recd =>
     if leopardEncodeErr recd k then .ok ()                  -- "befp is legit" (future-proofing branch)
@@ -135,6 +137,10 @@ def checkEncoding (F : Flags) (H : HashFn) (C : Codec) (dah : Dah) (axis : Axis)
           match computeRoot H true hs with
           | .error _ => .error .panic
           | .ok root => if root == expected then .error .validation else .ok ()
+
+/-- "rebuild the whole axis": the share bytes, an empty vector where the share is absent -/
+def rebuiltOf (shares : List (Option ShareWithProof)) : List Bytes :=
+  shares.map (fun o => match o with | some s => s.share | none => [])
 
 /-- `<BadEncodingFraudProof as FraudProof>::validate(header)`; `hh` = `header.height()`, `dah` = `header.dah` -/
 def validateWith (F : Flags) (H : HashFn) (C : Codec) (p : Befp) (hh : Nat) (dah : Dah) : Except BErr Unit :=
@@ -152,8 +158,7 @@ def validateWith (F : Flags) (H : HashFn) (C : Codec) (p : Befp) (hh : Nat) (dah
       match verifyShares F H dah p.axis p.index p.shares 0 with
       | .error e => .error e
       | .ok () =>
-        checkEncoding F H C dah p.axis p.index k
-          (p.shares.map (fun o => match o with | some s => s.share | none => []))
+        checkEncoding F H C dah p.axis p.index k (rebuiltOf p.shares)
 
 /-- the code as it is now -/
 def validate := validateWith Flags.fixed
